@@ -65,6 +65,25 @@ impl<T> ValuesMatrix<T> {
             .map(|generation| generation.as_ref())
     }
 
+    /// Number of values in every generation, empty ones included.
+    pub fn generation_lens(&self) -> Vec<usize> {
+        self.values.iter().map(|generation| generation.len()).collect()
+    }
+
+    /// Values added after `seen` (a result of generation_lens) was taken, by generation.
+    /// A value of previous or current data could be added into any generation, including
+    /// the ones that were empty or even absent when `seen` was taken.
+    pub fn slice_iter_after(&self, seen: Vec<usize>) -> impl Iterator<Item = &[T]> {
+        self.values
+            .iter()
+            .enumerate()
+            .map(move |(idx, generation)| {
+                let seen_len = seen.get(idx).copied().unwrap_or_default();
+                &generation[seen_len.min(generation.len())..]
+            })
+            .filter(|values| !values.is_empty())
+    }
+
     pub fn get_size(&self) -> usize {
         self.size
     }
